@@ -32,6 +32,7 @@ type Op struct {
 	Idx  int    // index key number, -1 for scalar access
 	Tok  string // value written
 	Fwd  bool   // (writes) append "~" + the value last read in this attempt: the value is relayed, tagged
+	Raw  bool   // (with Fwd) the relayed value keeps the vector clock it arrived with (as seen below iface.Read)
 }
 
 func (o Op) String() string {
@@ -41,6 +42,9 @@ func (o Op) String() string {
 	}
 	if o.Kind == OpRead {
 		return fmt.Sprintf("read r%d%s", o.Res, ix)
+	}
+	if o.Fwd && o.Raw {
+		return fmt.Sprintf("r%d%s := %q~<last value read, with the clock it carried>", o.Res, ix, o.Tok)
 	}
 	if o.Fwd {
 		return fmt.Sprintf("r%d%s := %q~<last value read>", o.Res, ix, o.Tok)
@@ -195,6 +199,7 @@ type runner struct {
 	sticky    bool
 	planPos   []int
 	lastRead  string
+	lastClock *tla.VClock // clock carried by the value last read through a wrapped resource in this attempt
 	anomalies []string
 	finished  bool
 	onEvent   func(Event)
@@ -250,6 +255,11 @@ func (f *faulty) ReadValue(iface distsys.ArchetypeInterface) (tla.Value, error) 
 	v, err := f.inner.ReadValue(iface)
 	if err == nil {
 		f.r.opPerform = true
+		f.r.lastClock = nil
+		if c := v.GetVClock(); c != nil {
+			cc := *c
+			f.r.lastClock = &cc
+		}
 		if failAfter {
 			f.r.fired = true
 			return tla.Value{}, distsys.ErrCriticalSectionAborted
@@ -564,7 +574,12 @@ func (r *runner) doOp(iface distsys.ArchetypeInterface, j int, op Op) error {
 	if in.CanRead() && !in.Consuming() && !foreign {
 		rec.Prev, rec.HasPrev = in.MPeek(op.Idx)
 	}
-	err = iface.Write(handle, indices, tla.MakeString(tok))
+	val := tla.MakeString(tok)
+	if op.Fwd && op.Raw && r.lastRead != "" && r.lastClock != nil {
+		// a relayed value that still carries its sender's clock: Write must add the relayer's, not replace it
+		val = tla.WrapCausal(val, *r.lastClock)
+	}
+	err = iface.Write(handle, indices, val)
 	rec.OK, rec.Performed, rec.Tok = err == nil, r.opPerform || err == nil, tok
 	if rec.Performed {
 		r.cur.Touched[op.Res] = true
@@ -627,7 +642,7 @@ func Execute(p *Program, insts []Instance, opt Options) Result {
 		r.open, r.evSeen = true, false
 		r.curFault = nil
 		r.fired = false
-		r.lastRead = ""
+		r.lastRead, r.lastClock = "", nil
 		r.curOp, r.opRes = -1, -1
 	}
 	gotoNext := func(li int, iface distsys.ArchetypeInterface) error {
